@@ -7,7 +7,7 @@ COQ_FILE = "props/C13.v"
 THEOREMS = ['C13_rate_le_ceiling', 'C13_data_frame_needs_credit', 'C13_ack_frame_needs_credit', 'C13_sync_frame_needs_credit', 'C13_credit_capped_by_rate_times_rtt', 'C13_frame_length', 'C13_flush_charges_every_byte', 'C13_flush_within_credit']
 USES_FLOATS = True
 NEEDS_RELEASE = True
-ASSUMPTIONS = ['proved: X <= ceiling (all reachable controller states), frames only start with credit >= 0, credit capped at round(X*rtt) by step(), and for a whole HalfConnection flush (all loops, ack+data+sync): credit' = credit - bytes emitted exactly, nothing emitted on negative credit, all frames but the last fit in the credit (C13_flush_charges_every_byte, C13_flush_within_credit); the real-number interval bound is checked by the oracle with the virtual clock, not derived through the float arithmetic (partial)', 'the ratepair stream never overrides the flush credit: all credit comes from step()']
+ASSUMPTIONS = ['proved: X <= ceiling (all reachable controller states), frames only start with credit >= 0, credit capped at round(X*rtt) by step(), and for a whole HalfConnection flush (all loops, ack+data+sync): new credit = old credit - bytes emitted exactly, nothing emitted on negative credit, all frames but the last fit in the credit (C13_flush_charges_every_byte, C13_flush_within_credit); the real-number interval bound is checked by the oracle with the virtual clock, not derived through the float arithmetic (partial)', 'the ratepair stream never overrides the flush credit: all credit comes from step()']
 THEOREM_STATEMENTS = []
 
 
